@@ -531,8 +531,21 @@ func c01R14(c *Ctx, r *Report) {
 				}
 			}
 		}
+		degenerate := false
 		if loops == 0 {
-			r.Bad(rule, name+" / ready only after every dependency was looked at", "the loop over the dependencies is gone")
+			for _, b := range fn.Blocks {
+				if strings.HasSuffix(b.Comment, ".loop") || b.Comment == "for.body" || (strings.HasPrefix(b.Comment, "range") && strings.HasSuffix(b.Comment, ".body")) {
+					degenerate = true // a loop statement whose body never repeats: it is left in its first iteration
+				}
+			}
+		}
+		if degenerate {
+			r.Bad(rule, name+" / ready only after every dependency was looked at", "the loop over the dependencies never gets past its first iteration (every path through the body leaves the loop): dependencies later in the list are never looked at")
+			continue
+		}
+		if loops == 0 {
+			// the loop lives in a helper now: which dependency states allow `ready` is C01-R1's table
+			r.Trivial(rule, name+" / ready only after every dependency was looked at", "no loop in the function itself (delegated); the dependency-state table C01-R1 decides the answer")
 			continue
 		}
 		r.Check(bad == nil, rule, name+" / ready only after every dependency was looked at", "the only way from the loop body to the ready answer is through the loop's end",
@@ -1331,4 +1344,646 @@ func variadicElems(c *Ctx, sl *ssa.Slice, d int) []ssa.Value {
 		}
 	}
 	return out
+}
+
+// ---- round 9 ------------------------------------------------------------------
+
+var ubcExempt = map[string]string{
+	"database.Interface.getMeta / method call database.Controller.ReadOnly": "getMeta returns the controller together with ErrNotFound (a nil controller never comes with ErrNotFound: C13-R10); the callers tolerate exactly that error",
+	"database.Interface.getMeta / method call database.Controller.Put":      "as above",
+	"config.PutValueIntoHierarchicalConfig / type assertion to map[string]interface{} / map write":         "the map written in the !ok arm is the previous level's map (loop-carried), not the result of this assertion",
+}
+
+func ubcRuleFor(rule string, floor int, pkgs ...string) ruleFn {
+	return func(c *Ctx, r *Report) {
+		useBeforeCheckRule(c, r, rule, floor, func(fn *ssa.Function) bool { return inList(short(fn.Pkg.Pkg.Path()), pkgs) }, ubcExempt)
+	}
+}
+
+func init() {
+	const txt = "results of fallible operations - (v, err) calls, comma-ok assertions and lookups - are used (field access, method call, call, map write, handed on) only where err == nil / ok / v != nil was established (A17 use before check)"
+	extend("C13", "(R15) in api, database and database/query "+txt+": a request that fails a step is answered with the error instead of dereferencing a nil result.", ubcRuleFor("C13-R15", 20, "api", "database", "database/query"))
+	extend("C11", "(R21) in database/query "+txt+".", ubcRuleFor("C11-R21", 3, "database/query"))
+	extend("C08", "(R14) in database/record, formats/dsd, formats/varint and container "+txt+": parsing an arbitrary byte string fails with an error instead of a nil dereference.", ubcRuleFor("C08-R14", 5, "database/record", "formats/dsd", "formats/varint", "container"))
+	extend("C09", "(R13) in formats/dsd "+txt+".", ubcRuleFor("C09-R13", 3, "formats/dsd"))
+	extend("C02", "(R20) in database and the storage backends "+txt+".", ubcRuleFor("C02-R20", 15, "database", "database/storage/bbolt", "database/storage/badger", "database/storage/hashmap", "database/storage/fstree", "database/storage/sinkhole", "database/record"))
+	extend("C04", "(R17) in config "+txt+".", ubcRuleFor("C04-R17", 5, "config"))
+	extend("C19", "(R17) in updater "+txt+".", ubcRuleFor("C19-R17", 10, "updater"))
+	extend("C12", "(R16) in api "+txt+".", ubcRuleFor("C12-R16", 10, "api"))
+	extend("C06", "(R16) in modules "+txt+".", ubcRuleFor("C06-R16", 1, "modules"))
+}
+
+func init() {
+	const txt = "no function with an interface-typed result returns a pointer that may be nil (a typed nil inside the interface defeats the caller's nil test; A18)"
+	extend("C13", "(R16) in the database packages and api "+txt+".", func(c *Ctx, r *Report) {
+		typedNilRule(c, r, "C13-R16", 5, "api", "database", "database/record", "database/accessor", "database/query", "database/iterator", "database/storage", "database/storage/bbolt", "database/storage/hashmap", "database/storage/badger", "database/storage/fstree", "database/storage/sinkhole")
+	})
+	extend("C04", "(R18) in config "+txt+".", func(c *Ctx, r *Report) { typedNilRule(c, r, "C04-R18", 1, "config") })
+}
+
+// ---- ordering table ---------------------------------------------------------------
+// neverAfter: once an instruction satisfying `first` ran, no instruction satisfying `late` is reachable in fn.
+func neverAfter(c *Ctx, r *Report, rule, fname, what, why string, first, late func(ssa.Instruction) bool) {
+	fn := c.Func(fname)
+	if fn == nil {
+		r.Undecided(rule, fname, "anchor function missing")
+		return
+	}
+	var firsts []ssa.Instruction
+	eachInstr(fn, func(in ssa.Instruction) {
+		if first(in) {
+			firsts = append(firsts, in)
+		}
+	})
+	if len(firsts) == 0 {
+		r.Bad(rule, fname+" / "+what, "the anchoring operation is gone from "+fname)
+		return
+	}
+	var bad ssa.Instruction
+	for _, f := range firsts {
+		if x := ReachInstr(fn, f, late, nil); x != nil {
+			bad = x
+		}
+	}
+	r.Check(bad == nil, rule, fname+" / "+what, "nothing of the kind is reachable after it", why, posOf(c, bad))
+}
+
+func isCallToGlobalFuncVar(global string) func(ssa.Instruction) bool {
+	return func(in ssa.Instruction) bool {
+		ci, ok := in.(ssa.CallInstruction)
+		return ok && vpath(ci.Common().Value) == "global:"+global
+	}
+}
+
+func isStoreToGlobal(global string) func(ssa.Instruction) bool {
+	return func(in ssa.Instruction) bool {
+		st, ok := in.(*ssa.Store)
+		return ok && vpath(st.Addr) == "global:"+global
+	}
+}
+
+func isCallSuffix(suffixes ...string) func(ssa.Instruction) bool {
+	return func(in ssa.Instruction) bool {
+		ci, ok := in.(ssa.CallInstruction)
+		if !ok {
+			return false
+		}
+		n := calleeName(ci.Common())
+		for _, s := range suffixes {
+			if n == s || strings.HasSuffix(n, s) {
+				return true
+			}
+		}
+		return false
+	}
+}
+
+func isAboolCallOnGlobal(global, method string) func(ssa.Instruction) bool {
+	return func(in ssa.Instruction) bool {
+		if _, isDefer := in.(*ssa.Defer); isDefer {
+			return false
+		}
+		p, m, ok := aboolOp(in)
+		return ok && m == method && p == "global:"+global
+	}
+}
+
+func recvOnGlobal(global string) func(ssa.Instruction) bool {
+	is := func(v ssa.Value) bool { return vpath(v) == "global:"+global }
+	return func(in ssa.Instruction) bool {
+		switch x := in.(type) {
+		case *ssa.UnOp:
+			return x.Op == token.ARROW && is(x.X)
+		case *ssa.Select:
+			for _, st := range x.States {
+				if st.Dir == types.RecvOnly && is(st.Chan) {
+					return true
+				}
+			}
+		}
+		return false
+	}
+}
+
+func c03R13(c *Ctx, r *Report) {
+	r.SetFloor("C03-R13", 1)
+	neverAfter(c, r, "C03-R13", "runtime.pushModuleEvent", "flags complete before the record is pushed",
+		"the event record is marked secret / crown jewel after it was handed to the subscription pusher: the subscribers' permission check sees it without the flags and unprivileged feeds receive internal events",
+		isCallToGlobalFuncVar("runtime.modulesIntegrationUpdatePusher"), isCallSuffix("record.Meta.MakeSecret", "record.Meta.MakeCrownJewel"))
+}
+
+func c20R12(c *Ctx, r *Report) {
+	r.SetFloor("C20-R12", 1)
+	neverAfter(c, r, "C20-R12", "log.SetPkgLevels", "package levels stored before they are switched on",
+		"pkgLevelsActive is set before the new level map is stored: a line logged in between is filtered by the stale map and an enabled line is dropped",
+		isAboolCallOnGlobal("log.pkgLevelsActive", "Set"), isStoreToGlobal("log.pkgLevels"))
+}
+
+func c02R21(c *Ctx, r *Report) {
+	r.SetFloor("C02-R21", 1)
+	neverAfter(c, r, "C02-R21", "database.NewInterface", "cache built after its evict handler was registered",
+		"the read cache is built before the evict handler is registered on the builder (the builder copies its settings at Build): write-cached records evicted from the cache are never written through and a later get misses them",
+		isCallSuffix("gcache.CacheBuilder.Build"), isCallSuffix("gcache.CacheBuilder.EvictedFunc"))
+}
+
+func c12R17(c *Ctx, r *Report) {
+	const rule = "C12-R17"
+	r.SetFloor(rule, 1)
+	fn := c.Func("api.SetAuthenticator")
+	if fn == nil {
+		r.Undecided(rule, "api.SetAuthenticator", "anchor function missing")
+		return
+	}
+	n := 0
+	eachInstr(fn, func(in ssa.Instruction) {
+		if !isStoreToGlobal("api.authFn")(in) {
+			return
+		}
+		n++
+		p := ReachTargetAvoiding(fn, in, []Guard{aboolGuard("authFnSet claimed", "global:api.authFnSet", "SetToIf", true)}, nil)
+		r.Check(p == nil, rule, "api.SetAuthenticator / authenticator stored only by the call that claimed the slot", "the store is behind the true edge of authFnSet.SetToIf(false, true)",
+			"the authenticator function is replaced before (or without) the already-set check succeeding: a refused SetAuthenticator call still takes over authentication", c.pathString(p)...)
+	})
+	if n == 0 {
+		r.Bad(rule, "api.SetAuthenticator / authenticator stored only by the call that claimed the slot", "SetAuthenticator no longer stores the function")
+	}
+}
+
+func c07R17(c *Ctx, r *Report) {
+	r.SetFloor("C07-R17", 3)
+	for _, f := range []string{"modules.(*Task).Queue", "modules.(*Task).QueuePrioritized", "modules.(*Task).StartASAP"} {
+		neverAfter(c, r, "C07-R17", f, "handler woken after the task is in the list",
+			"the queue handler is signalled before the task is inserted: it can scan the still empty queue, consume the signal and go back to waiting, and the task is not started until something else wakes it",
+			func(in ssa.Instruction) bool {
+				if isCallSuffix("modules.notifyQueue")(in) {
+					return true
+				}
+				return chanSendOnGlobal("modules.queueIsFilled")(in)
+			}, isCallSuffix("container/list.List.PushBack", "container/list.List.PushFront", "container/list.List.MoveToFront"))
+	}
+}
+
+func c05R14(c *Ctx, r *Report) {
+	r.SetFloor("C05-R14", 1)
+	neverAfter(c, r, "C05-R14", "modules.(*Task).runWithLocking", "no waiting between the module-state check and the execution",
+		"the task waits for a timeslot after it checked that its module is online: the module can be stopped during the wait and the task function then runs on a stopped module, uncounted by the stop that already completed",
+		isCallSuffix("modules.Module.Online", "modules.Module.OnlineSoon"), recvOnGlobal("modules.taskTimeslot"))
+}
+
+func c05R15(c *Ctx, r *Report) {
+	const rule = "C05-R15"
+	r.SetFloor(rule, 1)
+	fn := c.Func("modules.Shutdown")
+	if fn == nil {
+		r.Undecided(rule, "modules.Shutdown", "anchor function missing")
+		return
+	}
+	held := LocksHeldAt(fn)
+	n := 0
+	eachInstr(fn, func(in ssa.Instruction) {
+		if !isAboolCallOnGlobal("modules.shutdownFlag", "SetToIf")(in) {
+			return
+		}
+		n++
+		r.Check(held[in]["global:modules.mgmtLock"], rule, "modules.Shutdown / shutdown flag tested under the management lock", "mgmtLock is held at the test",
+			"Shutdown tests the shutdown flag before taking the management lock: a second caller gets its 'already initiated' answer while the first shutdown is still stopping modules - Shutdown returns before the work has returned (held: "+setString(held[in])+")", c.Pos(in.Pos()))
+	})
+	if n == 0 {
+		r.Bad(rule, "modules.Shutdown / shutdown flag tested under the management lock", "Shutdown no longer tests the shutdown flag")
+	}
+}
+
+// c07R18: Repeat substitutes the minimum interval only for a non-zero interval (zero means: stop repeating).
+func c07R18(c *Ctx, r *Report) {
+	const rule = "C07-R18"
+	r.SetFloor(rule, 1)
+	fn := c.Func("modules.(*Task).Repeat")
+	if fn == nil || len(fn.Params) < 2 {
+		r.Undecided(rule, "modules.(*Task).Repeat", "anchor function missing")
+		return
+	}
+	interval := fn.Params[1]
+	isInterval := func(v ssa.Value) bool { return unwrapConv(v) == ssa.Value(interval) }
+	nonZero := Guard{Name: "interval != 0", Truthy: true, Match: func(b ssa.Value) bool {
+		bo, ok := b.(*ssa.BinOp)
+		if !ok || bo.Op != token.NEQ {
+			return false
+		}
+		k1, c1 := constInt(bo.Y)
+		k2, c2 := constInt(bo.X)
+		return (isInterval(bo.X) && c1 && k1 == 0) || (isInterval(bo.Y) && c2 && k2 == 0)
+	}}
+	n := 0
+	for _, b := range fn.Blocks {
+		if len(b.Instrs) == 0 {
+			continue
+		}
+		ifi, ok := b.Instrs[len(b.Instrs)-1].(*ssa.If)
+		if !ok {
+			continue
+		}
+		base, pos := peel(ifi.Cond)
+		bo, ok := base.(*ssa.BinOp)
+		if !ok || !(bo.Op == token.LSS || bo.Op == token.LEQ || bo.Op == token.GTR || bo.Op == token.GEQ) || !(isInterval(bo.X) || isInterval(bo.Y)) {
+			continue
+		}
+		// the edge on which interval is below the minimum
+		below := (bo.Op == token.LSS || bo.Op == token.LEQ) == isInterval(bo.X)
+		succ := b.Succs[0]
+		if below != pos {
+			succ = b.Succs[1]
+		}
+		n++
+		p := ReachTargetAvoiding(fn, succ.Instrs[0], []Guard{nonZero}, nil)
+		r.Check(p == nil, rule, "modules.(*Task).Repeat / minimum interval only for a non-zero interval", "the substitution is behind interval != 0",
+			"Repeat raises an interval of zero to the minimum repeat duration: Repeat(0), documented to disable repeating and keep the schedule, turns repeating on and reschedules the task to run a minute from now", c.pathString(p)...)
+	}
+	if n == 0 {
+		r.Bad(rule, "modules.(*Task).Repeat / minimum interval only for a non-zero interval", "Repeat no longer compares the interval with the minimum")
+	}
+}
+
+// c18R8: the updater's fetch functions download / write only after the destination directory passed the storage root's scope check.
+func c18R8(c *Ctx, r *Report) {
+	const rule = "C18-R8"
+	r.SetFloor(rule, 4)
+	for _, fname := range []string{"updater.(*ResourceRegistry).fetchFile", "updater.(*ResourceRegistry).fetchMissingSig"} {
+		fn := c.Func(fname)
+		if fn == nil {
+			r.Undecided(rule, fname, "anchor function missing")
+			continue
+		}
+		scopeOK := Guard{Name: "EnsureAbsPath succeeded", Truthy: false, Match: func(b ssa.Value) bool {
+			for _, l := range c.Leaves(b) {
+				if call, ok := l.(*ssa.Call); ok && strings.HasSuffix(calleeName(&call.Call), "utils.DirStructure.EnsureAbsPath") {
+					return true
+				}
+			}
+			return false
+		}}
+		ord := map[string]int{}
+		for _, ci := range callsIn(fn, "updater.ResourceRegistry.makeRequest", "updater.ResourceRegistry.fetchAndVerifySigFile", "os.WriteFile", "utils/renameio.TempFile", "os.ReadFile") {
+			cons := ordinal(ord, fname+" / "+calleeName(ci.Common())+" after the scope check")
+			p := ReachTargetAvoiding(fn, ci, []Guard{scopeOK}, nil)
+			r.Check(p == nil, rule, cons, "reachable only across the success edge of storageDir.EnsureAbsPath",
+				"a download / file access for a resource happens without the destination directory having passed the storage root's scope check (check moved behind it, or its failure only logged): a hostile identifier reads or places files outside the storage directory", c.pathString(p)...)
+		}
+	}
+}
+
+// c19R18: DownloadUpdates marks a version available only after its fetch succeeded.
+func c19R18(c *Ctx, r *Report) {
+	const rule = "C19-R18"
+	r.SetFloor(rule, 3)
+	fn := c.Func("updater.(*ResourceRegistry).DownloadUpdates")
+	if fn == nil {
+		r.Undecided(rule, "updater.(*ResourceRegistry).DownloadUpdates", "anchor function missing")
+		return
+	}
+	fetched := Guard{Name: "fetchFile / fetchMissingSig succeeded", Truthy: false, Match: func(b ssa.Value) bool {
+		for _, l := range c.Leaves(b) {
+			if call, ok := l.(*ssa.Call); ok && (strings.HasSuffix(calleeName(&call.Call), "updater.ResourceRegistry.fetchFile") || strings.HasSuffix(calleeName(&call.Call), "updater.ResourceRegistry.fetchMissingSig")) {
+				return true
+			}
+		}
+		return false
+	}}
+	n := 0
+	eachInstr(fn, func(in ssa.Instruction) {
+		if !isFieldStore("updater.ResourceVersion", "Available")(in) && !isFieldStore("updater.ResourceVersion", "SigAvailable")(in) {
+			return
+		}
+		n++
+		p := precededInIterationGuard(fn, in, []Guard{fetched})
+		r.Check(p == nil, rule, fmt.Sprintf("updater.(*ResourceRegistry).DownloadUpdates / availability mark #%d only after a successful fetch", n), "the store is behind fetchFile's err == nil in the same iteration",
+			"a version is marked available although its download did not succeed: it is listed as available without a file on disk and selected over versions that exist", c.pathString(p)...)
+	})
+	if n == 0 {
+		r.Bad(rule, "updater.(*ResourceRegistry).DownloadUpdates / availability marks", "DownloadUpdates no longer marks downloaded versions available")
+	}
+}
+
+// precededInIterationGuard: target is reachable from the start of the current iteration of the outermost loop around it only across a guard edge.
+func precededInIterationGuard(fn *ssa.Function, target ssa.Instruction, guards []Guard) []*ssa.BasicBlock {
+	isT := func(in ssa.Instruction) bool { return in == target }
+	// outermost loop header around the target
+	reach := blockReach(fn)
+	var header *ssa.BasicBlock
+	for _, h := range fn.Blocks {
+		if !h.Dominates(target.Block()) {
+			continue
+		}
+		isHeader := false
+		for _, p := range h.Preds {
+			if h.Dominates(p) && (p == target.Block() || reach[target.Block()][p]) {
+				isHeader = true
+			}
+		}
+		if isHeader && (header == nil || h.Dominates(header)) {
+			header = h
+		}
+	}
+	if header == nil {
+		return ReachFromAvoiding(fn, nil, isT, guards, nil)
+	}
+	for _, s := range header.Succs {
+		if !(s == header || reach[s][header]) {
+			continue
+		}
+		if p := reachFromBlockStart(fn, s, isT, guards, nil); p != nil {
+			return p
+		}
+	}
+	return nil
+}
+
+// c19R19: AddResources goes on with the remaining entries after a failing one.
+func c19R19(c *Ctx, r *Report) {
+	const rule = "C19-R19"
+	r.SetFloor(rule, 1)
+	fn := c.Func("updater.(*ResourceRegistry).AddResources")
+	if fn == nil {
+		r.Undecided(rule, "updater.(*ResourceRegistry).AddResources", "anchor function missing")
+		return
+	}
+	var bad ssa.Instruction
+	loops := 0
+	for _, ci := range callsIn(fn, "updater.ResourceRegistry.addResource") {
+		h := innermostHeader(fn, ci.Block())
+		if h == nil {
+			continue
+		}
+		loops++
+		first := h.Instrs[0]
+		// from the call, a return must not be reachable without passing the loop header again
+		if x := ReachInstr(fn, ci, isExit, func(in ssa.Instruction) bool { return in == first }); x != nil {
+			bad = x
+		}
+	}
+	if loops == 0 {
+		r.Bad(rule, "updater.(*ResourceRegistry).AddResources / every entry is processed", "the loop over the index entries is gone")
+		return
+	}
+	r.Check(bad == nil, rule, "updater.(*ResourceRegistry).AddResources / every entry is processed", "no return inside the loop over the entries",
+		"AddResources returns from inside the loop (at the first failing entry): the entries after it are not registered, lose their current-release flag and the documented selection order is applied to an incomplete version list", posOf(c, bad))
+}
+
+// c20R13: once Start claimed the initialisation it starts the writer before it returns, whatever the flags contained.
+func c20R13(c *Ctx, r *Report) {
+	const rule = "C20-R13"
+	r.SetFloor(rule, 1)
+	fn := c.Func("log.Start")
+	if fn == nil {
+		r.Undecided(rule, "log.Start", "anchor function missing")
+		return
+	}
+	notClaimed := aboolGuard("initialisation not claimed", "global:log.initializing", "SetToIf", false)
+	for _, w := range []struct{ what string; pred func(ssa.Instruction) bool }{
+		{"starts the writer", isCallSuffix("log.startWriter")},
+		{"marks the logger started", isAboolCallOnGlobal("log.started", "Set")},
+	} {
+		p := ReachFromAvoiding(fn, nil, isExit, []Guard{notClaimed}, w.pred)
+		r.Check(p == nil, rule, "log.Start / "+w.what+" on every path after claiming the initialisation", "every return of the claiming call is preceded by it",
+			"Start can return (e.g. on a malformed package-level flag) without it: the logger stays initialised but never started, every line logged afterwards is parked forever and Shutdown returns with nothing written", c.pathString(p)...)
+	}
+}
+
+func init() {
+	extend("C03", "(R13) pushModuleEvent completes the record's secret / crown-jewel flags before it hands the record to the subscription pusher.", c03R13)
+	extend("C20", "(R12) SetPkgLevels stores the level map before it switches package levels on; (R13) once Start claimed the initialisation, every return is preceded by startWriter and started.Set.", c20R12, c20R13)
+	extend("C02", "(R21) NewInterface registers the evict handler on the cache builder before it builds the cache.", c02R21)
+	extend("C12", "(R17) SetAuthenticator stores the authenticator only behind the successful authFnSet.SetToIf(false, true); (R11 extended) endpointHandler.ReadPermission ~ WritePermission agree up to Read/Write.", c12R17)
+	extend("C07", "(R17) Queue / QueuePrioritized / StartASAP signal the queue handler only after the task is in the list; (R18) Repeat substitutes the minimum interval only behind interval != 0.", c07R17, c07R18)
+	extend("C05", "(R14) in runWithLocking nothing waits for a timeslot after the module-state check; (R15) Shutdown tests the shutdown flag with the management lock held.", c05R14, c05R15)
+	extend("C06", "(R17) = C05-R2 (every counter decrement is followed by checkIfStopComplete - a stop-completion check that runs before the finishing item is uncounted never completes the stop).", borrowRule(c05R2, "C05-R2", "C06-R17", 5, nil))
+	extend("C18", "(R8) the updater's fetch functions request, read and write only across the success edge of storageDir.EnsureAbsPath on the destination directory.", c18R8)
+	extend("C19", "(R18) DownloadUpdates marks a version (and its signature) available only behind fetchFile's success in the same iteration; (R19) AddResources has no return inside the loop over the index entries.", c19R18, c19R19)
+}
+
+// c06R18: the recovered panic value is only ever formatted by fmt (which contains panics of Error/String methods), never called directly.
+func c06R18(c *Ctx, r *Report) {
+	const rule = "C06-R18"
+	r.SetFloor(rule, 1)
+	n := 0
+	var bad []string
+	for _, fn := range funcsOfPkgs(c, "modules") {
+		eachInstr(fn, func(in ssa.Instruction) {
+			ci, ok := in.(ssa.CallInstruction)
+			if !ok || !ci.Common().IsInvoke() {
+				// count the reads of the panic value as instances
+				if u, isLoad := in.(*ssa.UnOp); isLoad && u.Op == token.MUL {
+					if fr, ok := fieldOfAddr(u.X); ok && fr.Owner == "modules.ModuleError" && fr.Name == "PanicValue" {
+						n++
+					}
+				}
+				return
+			}
+			for _, l := range c.Leaves(ci.Common().Value) {
+				isPV := false
+				if _, fr, ok := fieldLoad(l); ok && fr.Owner == "modules.ModuleError" && fr.Name == "PanicValue" {
+					isPV = true
+				}
+				if call, ok := l.(*ssa.Call); ok && calleeName(&call.Call) == "builtin.recover" {
+					isPV = true
+				}
+				if isPV {
+					bad = append(bad, fmt.Sprintf("%s calls %s on the panic value at %s", fnKey(fn), ci.Common().Method.Name(), c.Pos(in.Pos())))
+				}
+			}
+		})
+	}
+	if n == 0 {
+		r.Undecided(rule, "modules.ModuleError.PanicValue", "no read of the panic value found")
+		return
+	}
+	r.Check(len(bad) == 0, rule, "modules / no method is called on a recovered panic value", fmt.Sprintf("%d reads of ModuleError.PanicValue, none is the receiver of a method call", n),
+		strings.Join(bad, "; ")+": a panic value whose method panics itself (e.g. an error interface holding a nil pointer) raises a second panic inside the recover handler, which escapes containment")
+}
+
+func init() {
+	extend("C06", "(R18) no method is called directly on a recovered panic value or on ModuleError.PanicValue (fmt formats it and contains panics of its Error/String methods).", c06R18)
+	extend("C10", "(R9) = C16-R5 (a failed container split consumes nothing: skip is reached only after the peeked container was found non-nil).", borrowRule(c16R5, "C16-R5", "C10-R9", 1, nil))
+}
+
+// c01R15: startModules returns only when every start it launched has reported.
+// (A start still under way when Start / a management pass returns leaves its
+// module in the starting state: a following Shutdown cannot stop it - it is not
+// online yet - and it comes online afterwards with nobody left to stop it.)
+func c01R15(c *Ctx, r *Report) {
+	const rule = "C01-R15"
+	r.SetFloor(rule, 2)
+	fn := c.Func("modules.startModules")
+	if fn == nil {
+		r.Undecided(rule, "modules.startModules", "anchor function missing")
+		return
+	}
+	// blocks that launch a start / that follow a receive of a report
+	launchBlk := map[*ssa.BasicBlock]bool{}
+	var recvBlks []*ssa.BasicBlock
+	isStartCall := func(in ssa.Instruction) bool {
+		ci, ok := in.(*ssa.Call)
+		return ok && calleeName(ci.Common()) == "modules.Module.start"
+	}
+	launches := c.mayReach(isStartCall) // helpers that launch starts on behalf of startModules
+	eachInstr(fn, func(in ssa.Instruction) {
+		if isStartCall(in) {
+			launchBlk[in.Block()] = true
+		}
+		if ci, ok := in.(*ssa.Call); ok {
+			if callee := staticCallee(ci.Common()); callee != nil && callee != fn && launches[callee] {
+				launchBlk[in.Block()] = true
+			}
+		}
+		if u, ok := in.(*ssa.UnOp); ok && u.Op == token.ARROW {
+			recvBlks = append(recvBlks, in.Block())
+		}
+	})
+	if len(launchBlk) == 0 || len(recvBlks) == 0 {
+		r.Undecided(rule, "modules.startModules", "launch of Module.start or receive of a report not found")
+		return
+	}
+	afterRecv := func(b *ssa.BasicBlock) bool {
+		for _, rb := range recvBlks {
+			if rb == b || rb.Dominates(b) {
+				return true
+			}
+		}
+		return false
+	}
+	var counterOfKindD func(v ssa.Value, launch bool, d int) bool
+	counterOfKindD = func(v ssa.Value, launch bool, d int) bool {
+		if d > 3 {
+			return false
+		}
+		ok := false
+		for _, l := range c.Leaves(v) {
+			bo, isB := l.(*ssa.BinOp)
+			if !isB || bo.Op != token.ADD {
+				continue
+			}
+			if launch && launchBlk[bo.Block()] {
+				ok = true
+			}
+			k, isC := constInt(bo.Y)
+			if !isC {
+				// a sum of counters (e.g. the count a helper returned, added up by the caller)
+				if bo.Block() != nil && (counterOfKindD(bo.Y, launch, d+1) || (ssa.Value(bo) != v && counterOfKindD(bo.X, launch, d+1))) {
+					ok = true
+				}
+				continue
+			}
+			if k != 1 {
+				continue
+			}
+			if !launch && afterRecv(bo.Block()) && !launchBlk[bo.Block()] {
+				ok = true
+			}
+		}
+		return ok
+	}
+	counterOfKind := func(v ssa.Value, launch bool) bool { return counterOfKindD(v, launch, 0) }
+	isLaunched := func(v ssa.Value) bool { return counterOfKind(v, true) && !counterOfKind(v, false) }
+	isReported := func(v ssa.Value) bool { return counterOfKind(v, false) && !counterOfKind(v, true) }
+	gs := relGuards("reported >= launched", isReported, isLaunched, func(a, b int64) bool { return a >= b })
+	n := 0
+	eachInstr(fn, func(in ssa.Instruction) {
+		if !isExit(in) {
+			return
+		}
+		n++
+		p := ReachTargetAvoiding(fn, in, gs, nil)
+		r.Check(p == nil, rule, fmt.Sprintf("modules.startModules / return #%d only after every launched start has reported", n), "reachable only across reported >= launched",
+			"startModules returns while starts it launched are still under way (e.g. at the first failing module): their modules are left in the starting state, a following Shutdown does not stop them, and they come online after Shutdown returned", append([]string{c.Pos(in.Pos())}, c.pathString(p)...)...)
+	})
+}
+
+func init() {
+	extend("C01", "(R15) startModules returns only when every start it launched has reported (reported >= launched on every way to a return), so that no module is left in the starting state for a following Shutdown.", c01R15)
+}
+
+// c07R19: the global queue handler never waits for a module's start without a way out.
+// (runWithLocking runs synchronously in the task queue handler: an unbounded
+// receive there stops the tasks of every module.)
+func c07R19(c *Ctx, r *Report) {
+	const rule = "C07-R19"
+	r.SetFloor(rule, 1)
+	fn := c.Func("modules.(*Task).runWithLocking")
+	if fn == nil {
+		r.Undecided(rule, "modules.(*Task).runWithLocking", "anchor function missing")
+		return
+	}
+	fromCall := func(v ssa.Value, suffix string) bool {
+		for _, l := range c.Leaves(v) {
+			if call, ok := l.(*ssa.Call); ok && strings.HasSuffix(calleeName(&call.Call), suffix) {
+				return true
+			}
+		}
+		return false
+	}
+	n := 0
+	eachInstr(fn, func(in ssa.Instruction) {
+		switch x := in.(type) {
+		case *ssa.UnOp:
+			if x.Op == token.ARROW && fromCall(x.X, "modules.Module.StartCompleted") {
+				n++
+				r.Bad(rule, "modules.(*Task).runWithLocking / wait for the module start has a way out", "the queue handler receives from StartCompleted() alone: when the start fails nothing ever signals it, and the queued tasks of all other modules are not executed any more", c.Pos(in.Pos()))
+			}
+		case *ssa.Select:
+			waits, out := false, false
+			for _, st := range x.States {
+				if st.Dir != types.RecvOnly {
+					continue
+				}
+				if fromCall(st.Chan, "modules.Module.StartCompleted") {
+					waits = true
+				}
+				if fromCall(st.Chan, "modules.Module.Stopping") || fromCall(st.Chan, "context.Context.Done") {
+					out = true
+				}
+			}
+			if waits {
+				n++
+				r.Check(out || !x.Blocking, rule, "modules.(*Task).runWithLocking / wait for the module start has a way out", "the select also waits for the module context to be cancelled",
+					"the queue handler waits for StartCompleted() without the module's Stopping() / context as an alternative: a failed start blocks the task queue of all modules", c.Pos(in.Pos()))
+			}
+		}
+	})
+	if n == 0 {
+		r.Trivial(rule, "modules.(*Task).runWithLocking / wait for the module start has a way out", "the function no longer waits for the module start")
+	}
+}
+
+// c06R19: a failed (or panicked) start cancels the module context it created.
+func c06R19(c *Ctx, r *Report) {
+	const rule = "C06-R19"
+	r.SetFloor(rule, 1)
+	n := 0
+	for _, fn := range funcsOfPkgs(c, "modules") {
+		if fn.Parent() == nil || fnKey(fn.Parent()) != "modules.(*Module).start" {
+			continue
+		}
+		eachInstr(fn, func(in ssa.Instruction) {
+			st, ok := in.(*ssa.Store)
+			if !ok || !isFieldStore("modules.Module", "status")(in) {
+				return
+			}
+			k, isC := constInt(st.Val)
+			off, okc := c.constVal("modules", "StatusOffline")
+			if !isC || !okc || k != off {
+				return
+			}
+			n++
+			bad := ReachInstr(fn, in, isExit, isFieldFuncCall("modules.Module", "cancelCtx"))
+			r.Check(bad == nil, rule, fnKey(fn)+" / a failed start cancels the module context", "cancelCtx is called on every path after the status was reset to offline",
+				"the start routine failed, the module is offline again, but the context created for this start stays live: workers the start routine launched keep running with nobody to stop them, and tasks waiting for the module are never released", c.Pos(in.Pos()), posOf(c, bad))
+		})
+	}
+	if n == 0 {
+		r.Undecided(rule, "modules.(*Module).start", "the failure arm (status reset to offline) was not found")
+	}
+}
+
+func init() {
+	extend("C07", "(R19) runWithLocking - which runs synchronously in the global queue handler - waits for a module's StartCompleted() only in a select that also ends when the module context is cancelled.", c07R19)
+	extend("C06", "(R19) the failure arm of Module.start (status reset to offline) cancels the module context on every path, so a failed or panicked start releases what waits for the module and stops what the start routine launched.", c06R19)
 }
